@@ -202,6 +202,23 @@ theorem prefixes_67 (m : Mode) (f : Nat) (p : Pfx) (rest : List Nat) :
   | none => rfl
   | some r => obtain ⟨a, n⟩ := r; rfl
 
+theorem prefixes_rex (f : Nat) (p : Pfx) (x : Nat) (rest : List Nat) (hlo : 0x40 ≤ x) (hhi : x ≤ 0x4f) :
+    (prefixes .m64 (f + 1) p).run (x :: rest) =
+      match (prefixes .m64 f { p with rex := some x }).run rest with
+      | some (r, n) => some (r, 1 + n)
+      | none => none := by
+  simp only [prefixes, Rd.run_bind, run_byte, List.drop_succ_cons, List.drop_zero]
+  have h1 : (x == 0x66) = false := by simp; omega
+  have h2 : (x == 0x67) = false := by simp; omega
+  have h3 : (x == 0xf2 || x == 0xf3) = false := by simp; omega
+  have h4 : (x == 0xf0) = false := by simp; omega
+  have h5 : isSegPfx x = false := by simp [isSegPfx]; omega
+  have h6 : ((Mode.m64 == Mode.m64) && decide (0x40 ≤ x) && decide (x ≤ 0x4f)) = true := by simp; omega
+  simp only [h1, h2, h3, h4, h5, h6, Bool.false_eq_true, if_false, if_true]
+  cases (prefixes .m64 f { p with rex := some x }).run rest with
+  | none => rfl
+  | some r => obtain ⟨a, n⟩ := r; rfl
+
 /-- shape of `insn` once the prefixes are known -/
 def afterPfx (m : Mode) (p : Pfx) (op : Nat) : Rd (Option Int) :=
   if op == 0x0f then twoByte m p
